@@ -26,9 +26,13 @@ impl of the same name for the same view type **as it is** (sync `to_html()`, `hy
 | `hydrate`, `hydrateList`      | `RenderHtml::hydrate::<true>` per view type: strings.rs (step; one more `sibling()` when `NextChildAfterText`; cast to `Text`; the retained `str` is the *view's* string, the node's data is not read), tuples.rs (`()` = `next_placeholder`, then `NextChild`), element/mod.rs (`inner_1`: `child()` if `FirstChild`, `sibling()` unless `Current`; cast to `Element` — the tag name is **not** compared; attributes; children only if `Ch::EXISTS && E::ESCAPE_CHILDREN`, from `FirstChild`; `inner_2`: `cursor.set(el)`, `NextChild`), iterators.rs (`Vec`: items, `next_placeholder`, `NextChild`), either.rs / any_view.rs (transparent) |
 | `Out.created`                 | nodes created by the walk (`native_dom::nodes_created()` before/after): no modelled branch creates one |
 | `IdTree`, `loadTree(s)`       | what the correspondence harness does with the parser's output: one native node per parsed node, created in document order and appended to its parent |
-| `real`, `realL`               | "`d` contains this forest of parsed nodes below `p`" (hypothesis of `C05_hydrate_succeeds`)    |
+| `real`, `realL`, `Realises`   | "`d` contains this forest of parsed nodes below `p`" (hypothesis of `C05_hydrate_succeeds`; established for `loadRoot` by `C05_load_realises`); `realB`, `realisesB`, `loadOK` are the executable forms the driver re-evaluates on every case |
 | `adopt`, `adoptL`             | specification of the binding: the state that takes the nodes of `dom v pos` front to back     |
 | `bound`                       | the adopted nodes have the expected kinds; a text state's node holds the retained string, `" "` for `""` |
+| `nshape`, `Shape`             | a retained state with node ids forgotten (`C05_state_eq_build_state_mod_ids`)                 |
+| `toDomTrees`                  | a parsed forest as `Dom.Tree`s (what `serializeKids` of the loaded root shows; driver self-check) |
+| `hasEmptyText`, `hasRawKids`  | the decidable input classes of F-C05-1 / F-C05-2                                              |
+| `runHydrated`, `runCsr`, `likeCsr` | the two runs the property compares and its oracle                                        |
 | `stripL`, `treesBeq`          | the property's observable: comments removed, adjacent text merged, empty text dropped         |
 
 Not modelled (stated): `FROM_SERVER = false` (templates), `InertElement`, `Keyed`, `StaticVec`/`Fragment`
@@ -443,6 +447,19 @@ end
 
 /-! ## observables -/
 
+mutual
+/-- a parsed forest as `Dom.Tree`s (what `serializeKids` of the loaded root shows) -/
+def toDomTree : HTree → Dom.Tree
+  | .text s => .text (String.ofList s)
+  | .comment s => .comment (String.ofList s)
+  | .elem tag attrs kids =>
+    .elem (String.ofList tag) (attrs.map fun a => (String.ofList a.1, String.ofList a.2)) (toDomTrees kids)
+def toDomTrees : List HTree → List Dom.Tree
+  | [] => []
+  | t :: ts => toDomTree t :: toDomTrees ts
+end
+
+
 def pushText (s : String) : List Dom.Tree → List Dom.Tree
   | .text u :: r => if s = "" then .text u :: r else .text (s ++ u) :: r
   | r => if s = "" then r else .text s :: r
@@ -505,6 +522,22 @@ def textsL : List View → List String
 end
 
 def hasEmptyText (v : View) : Bool := (texts v).contains ""
+
+mutual
+/-- the input class of F-C05-2: an element that does not escape its children (`script`, `style`,
+`textarea`, `noscript`: `ESCAPE_CHILDREN = false`) has children — `hydrate` keeps no state for them -/
+def hasRawKids : View → Bool
+  | .elem tag _ c => (!escKids tag && viewExists c) || hasRawKids c
+  | .tuple vs => hasRawKidsL vs
+  | .osome v => hasRawKids v
+  | .either _ _ v => hasRawKids v
+  | .vec vs => hasRawKidsL vs
+  | .any _ v => hasRawKids v
+  | _ => false
+def hasRawKidsL : List View → Bool
+  | [] => false
+  | v :: vs => hasRawKids v || hasRawKidsL vs
+end
 
 /-! ## retained state up to node identity -/
 
